@@ -60,7 +60,7 @@ pub fn profile(name: &str) -> Profile {
         decode: false,
         cycles: false,
     };
-    match name {
+    let mut p = match name {
         "C01" => Profile {
             name: "C01",
             val: ValProfile::Boundary,
@@ -161,7 +161,14 @@ pub fn profile(name: &str) -> Profile {
             ..base
         },
         _ => base,
+    };
+    if std::env::var("NV_FORCE_DECODE").is_ok() {
+        p.decode = true;
     }
+    if std::env::var("NV_FULL_SWEEP").is_ok() {
+        p.full_sweep_every = 1;
+    }
+    p
 }
 
 #[derive(PartialEq, Clone, Copy, Debug)]
@@ -539,6 +546,53 @@ impl<'a, K: HashKind> Case<'a, K> {
             extra.push(k);
         }
         self.pool.keys.extend(extra);
+        if variant != 0 && !self.sut.dead && !self.rep.diverged && self.rng.chance(2, 3) {
+            self.far_keys_stage();
+        }
+    }
+
+    /// After a clustered fill: a second commit adds keys far outside the cluster with values large
+    /// enough to spread over several leaves (their separators cannot share the cluster's prefix
+    /// and are stored un-compressed at the end of the branch node); then single far keys are
+    /// overwritten / deleted one commit at a time so that individual un-compressed separators
+    /// are rewritten while their neighbours are kept.
+    fn far_keys_stage(&mut self) {
+        let hi = self.rng.bool();
+        let n_far = self.rng.range(4, 40) as usize;
+        let mut far: Vec<Key> = Vec::new();
+        for i in 0..n_far {
+            let mut k = if hi { [0xffu8; 32] } else { [0u8; 32] };
+            k[1] = (i as u8).wrapping_mul(5).wrapping_add(1);
+            k[2] = self.rng.below(256) as u8;
+            k[31] = 1;
+            far.push(k);
+        }
+        far.sort();
+        far.dedup();
+        let st = self.next_stamp();
+        let mut b: Batch = Vec::new();
+        for (i, k) in far.iter().enumerate() {
+            let len = self.rng.range(900, 1332) as usize;
+            b.push((*k, Access::Write(Some(crate::gen::stamped_value(st + i as u64, len)))));
+        }
+        self.rep.feat("far_keys_stage", 1);
+        self.commit_batch(b, 0, "far-keys");
+        self.pool.keys.extend(far.iter().copied());
+        for _ in 0..self.rng.range(2, 6) {
+            if self.sut.dead || self.rep.diverged {
+                return;
+            }
+            let k = *self.rng.pick(&far);
+            let st = self.next_stamp();
+            let a = match self.rng.below(4) {
+                0 => Access::Write(None),
+                _ => {
+                    let len = self.rng.range(1, 1332) as usize;
+                    Access::Write(Some(crate::gen::stamped_value(st, len)))
+                }
+            };
+            self.commit_batch(vec![(k, a)], 0, "far-key-point-update");
+        }
     }
 
     fn describe_batch(b: &Batch) -> String {
@@ -620,6 +674,20 @@ impl<'a, K: HashKind> Case<'a, K> {
         let ctx = format!("op{} {what} {} via={via} witness={witness}", self.rep.op_index, Self::describe_batch(&batch));
         self.rep.t(ctx.clone());
         let nontrivial = Self::is_nontrivial_commit(&view, &batch);
+        if let Ok(pfx) = std::env::var("NV_TRACE_KEY") {
+            for (k, a) in &batch {
+                let h: String = k.iter().map(|b| format!("{b:02x}")).collect();
+                if h.starts_with(&pfx) {
+                    let d = match a {
+                        Access::Read => "read".to_string(),
+                        Access::Write(v) => format!("write {:?}", v.as_ref().map(|v| v.len())),
+                        Access::ReadThenWrite(v) => format!("rtw {:?}", v.as_ref().map(|v| v.len())),
+                    };
+                    let had = view.get(k).map(|v| v.bytes.len());
+                    self.rep.t(format!("   TRACE {h} {d} (model had {had:?})"));
+                }
+            }
+        }
         let prove = self.p.prove_per_commit;
         let Some(mut prep) = self
             .sut
@@ -1960,6 +2028,11 @@ pub fn decode_check<K: HashKind>(sut: &Sut<K>, rep: &mut Rep, what: &str) {
             ("C16", format!("decode:{}", crate::sut::msg_class(is).chars().take(60).collect::<String>()))
         };
         rep.fail(prop, &sig, format!("{ctx}: {is}"));
+    }
+    if d.issues.iter().any(|is| !is.starts_with("LEAK")) {
+        // cross-check through the API: a structurally wrong tree usually also serves wrong reads
+        let all: Vec<Key> = sut.model.kv.keys().copied().collect();
+        sut.check_reads(rep, &all, &format!("{ctx} full sweep after decoder issues"), true);
     }
     // meta vs handle
     if d.meta.sync_seqn != sut.model.seqn {
